@@ -180,6 +180,16 @@ def run_candidate(c):
             for code in c.get("must_not_have", []):
                 if code in cs:
                     bad.append("unexpected code %s" % code)
+            if "output_contains" in c or "output_not_contains" in c:
+                # the rendered diagnostics (terminal colour codes removed, white space normalised)
+                plain = re.sub(r"\s+", " ", re.sub(r"\x1b\[[0-9;]*m", "", so + se))
+                obs["output"] = plain[:1500]
+                for frag in c.get("output_contains", []):
+                    if frag not in plain:
+                        bad.append("expected the rendered diagnostics to contain %r" % frag)
+                for frag in c.get("output_not_contains", []):
+                    if frag in plain:
+                        bad.append("rendered diagnostics contain %r" % frag)
         elif kind == "echo":
             rc, so, se = run(binp, ["echo"] + names, d)
             norm = re.sub(r"\s+", " ", so)
